@@ -3,7 +3,8 @@ reports each outcome on stdout as one line `R <index> <json>` (after `S <index>`
 the parent can tell which script a hang belongs to.
 
 usage: python -m vf.families._bchild <jobfile.json> <first index>
-job file: {"scripts": [text, ...], "work": scratch dir, "frames": framer name or ""}   (frames: also report over/unders of that framer)
+job file: {"scripts": [text, ...], "work": scratch dir, "frames": framer name or "", "stats": bool}
+(frames: also report over/unders of that framer; stats: also report the number of framers and of clones)
 """
 import collections.abc  # noqa: F401
 import json
@@ -24,7 +25,7 @@ def main():
     for i in range(start, len(job["scripts"])):
         out.write("S %d\n" % i)
         out.flush()
-        r = B.build(job["scripts"][i], workdir=work, want_pre=False, want_post=False, keep_skedder=bool(framer))
+        r = B.build(job["scripts"][i], workdir=work, want_pre=False, want_post=False, keep_skedder=bool(framer) or bool(job.get("stats")))
         res = {"outcome": r["outcome"], "etype": r["etype"], "msg": " ".join(r["msg"].split())[:300], "where": r["where"]}
         if r["outcome"] == "error" and r["etype"] not in B.SCRIPT_ERRORS:
             res["traceback"] = r.get("traceback", "")[-1200:]
@@ -36,6 +37,10 @@ def main():
                         for x in f.frameNames.values():
                             fr[x.name] = [B._fname(x.over), [B._fname(u) for u in x.unders]]
             res["frames"] = fr
+        if job.get("stats") and r["outcome"] == "built":
+            fs = [f for h in r["skedder"].houses for f in h.framers]
+            res["nframers"] = len(fs)
+            res["nclones"] = sum(1 for f in fs if not f.original)
         out.write("R %d %s\n" % (i, json.dumps(res)))
         out.flush()
     out.write("E\n")
